@@ -12,6 +12,7 @@ func init() {
 			"(E1b.active-destination / mac-index-handle) active destinations are only touched under their shard lock; (E6.identity-delete) a peer is removed from the registry only if the registry still holds that very peer. Also: (E1a.balanced) every function that acquires a lock releases it on all exits (deferred closures verified); (E1c.blocking-under-lock) blocking channel operations that can run under sharedData.mu are exactly the reviewed, bounded sites. (E1d.waitgroup) goroutines that signal a WaitGroup do so on every path and are started after an Add. (E1e.handover-capacity) WaitGroup-counted goroutines hand results over through channels with capacity ≥ 1.",
 		Not: "Races on state outside the guarded-by table, channel-induced deadlocks other than the two rules, lost wake-ups, liveness/quiescence and actual goroutine termination are not decided; lock classes are per field, not per instance.",
 		Run: func(c *Ctx) {
+			c.ruleRatchets("C20")
 			c.ruleLockOrder()
 			c.ruleBalanced()
 			c.ruleBlockingUnderLock()
